@@ -284,7 +284,7 @@ def main(tier):
             ck.violation(f"assembly table contract (bounded):{name}", {"solver_output": str(bad), "kind": "c12-bounded"}, reproduced=True)
         ck.extra["code_reached"] = {k: v for k, v in o["reached"].items() if k.startswith("jaxley")}
     for can, oc in zip(CANARIES, outs[1:]):
-        ref = oc[0] == "ok" and not oc[1]["error"] and (bool(oc[1]["bounded_bad"]) or any(r["status"] == "refuted" for r in oc[1]["results"]))
+        ref = oc[0] == "ok" and not oc[1]["error"] and (bool(oc[1]["bounded_bad"]) or any(r["status"] != "proved" for r in oc[1]["results"]))
         ck.canaries.append((f"{can[0]}: {can[2][:40]!r} -> ...", ref))
     for f in ("jaxley.modules.base.Module.to_jax", "jaxley.modules.base.Module.get_all_parameters", "jaxley.modules.base.Module.get_all_states", "jaxley.modules.base.Module.step",
               "jaxley.modules.base.Module._step_channels_state", "jaxley.modules.base.Module._channel_currents", "jaxley.utils.cell_utils.compute_axial_conductances"):
